@@ -513,6 +513,10 @@ class Ops:
         if isinstance(a, ObjV) and isinstance(b, ObjV) and a.cls == b.cls \
                 and set(a.fields) == set(b.fields):
             return ObjV(a.cls, {k: self.ite(cond, a.fields[k], b.fields[k]) for k in a.fields})
+        if isinstance(a, ListV) and isinstance(b, SeqV):
+            a = self.seq_from_list(a.items, b.et) if a.items else SeqV(None, z3.IntVal(0), b.et, fn=b.clone().sel)
+        if isinstance(b, ListV) and isinstance(a, SeqV):
+            b = self.seq_from_list(b.items, a.et) if b.items else SeqV(None, z3.IntVal(0), a.et, fn=a.clone().sel)
         if isinstance(a, SeqV) and isinstance(b, SeqV) and a.et.sort == b.et.sort:
             if a.fn is not None or b.fn is not None or not (isinstance(a.off, int) and isinstance(b.off, int) and a.off == b.off):
                 ca, cb = a.clone(), b.clone()
